@@ -269,7 +269,13 @@ def run(ctx):
             cons = [c for c in cons if sum(lengths[e] for e in c) > 0]
             if not cons:
                 continue
-        rep = {"edges": [[u, v, d] for u, v, d in G.edges(data=True)], "constraints": cons, "coverage": cov, "by_length": lengths is not None}
+        elif rng.random() < 0.4:
+            # a length attribute WITHOUT a length coverage: the fraction still counts edges, the lengths must not matter
+            for e in G.edges():
+                G.edges[e]["len"] = rng.choice([2, 3, 5])
+            covkw = {"subpath_constraints_coverage": cov, "length_attr": "len"}
+        rep = {"edges": [[u, v, d] for u, v, d in G.edges(data=True)], "constraints": cons, "coverage": cov, "by_length": lengths is not None,
+               "length_attr_given": "length_attr" in covkw}
         res = {}
         for greedy in (True, False):
             try:
